@@ -723,6 +723,43 @@ def late_session_runs(res: Result, only: str | None = None) -> int:
     return n
 
 
+def address_form_runs(res: Result, only: str | None = None) -> int:
+    """Two consecutive sessions on one client for several ways of writing the device's address (the second attempt runs with a device
+    name already known): every connect is accepted and completes; nothing about the address text can wedge the client."""
+    from ..world import ConnWorld
+
+    n = 0
+    for addr in ("10.0.0.1", "fd00::17", "fe80::1%3", "2001:db8::1"):
+        for name in ("dev", "living.room", ""):
+            key = f"address-form:{addr}:{name or 'no-name'}"
+            if only is not None and key != only:
+                continue
+            w = ConnWorld(client=True, keepalive=1e6, login=True, addresses=(addr,), device_name=name)
+            try:
+                for session in (1, 2, 3):
+                    tag = f"connect{session}"
+                    w.spawn(tag, lambda: w.client.connect(login=True))
+                    w.drain()
+                    if w.outcome(tag) is None and w.net.connecting():
+                        sock = w.net.connecting()[0]
+                        w.io_connect(sock, 0)
+                        w.drain()
+                        if w.outcome(tag) is None:
+                            w.io_chunk(sock, w.dframe(w.hello_resp()) + w.dframe(w.connect_resp()))
+                            w.drain()
+                    n += 1
+                    if w.outcome(tag) != "ok":
+                        r = w.results.get(tag)
+                        res.add(key, f"C19:wedged:session {session} to {addr!r} (device name {name!r}): connect() ended "
+                                f"{w.outcome(tag) or 'never'}: {r[1] if r else ''}", {"harness": "c19-address", "key": key})
+                        break
+                    w.spawn(f"disc{session}", lambda: w.client.disconnect(force=True))
+                    w.drain()
+            finally:
+                w.close()
+    return n
+
+
 def silent_device_runs(res: Result, only: str | None = None) -> int:
     """A device that dies without a word (the TCP connection stays open, no more bytes): after the keepalive has given up, the client must
     refuse work with a connection error and must accept - and complete - a fresh connect.  Histories with 0-3 answered pings before."""
@@ -836,6 +873,7 @@ def run(tier: str, seed: int) -> Result:
     sweep["silent_device_histories"] = silent_device_runs(res)
     sweep["failing_callback_histories"] = failing_callback_runs(res)
     sweep["late_session_histories"] = late_session_runs(res)
+    sweep["address_form_sessions"] = address_form_runs(res)
     if sweep["surface_methods"] < 40:
         raise HarnessError(f"vacuous surface sweep: {sweep}")
     need = {"session", "refused", "accepted", "work-refused", "work-accepted", "start-failed", "finish-failed"}
@@ -868,6 +906,11 @@ def run(tier: str, seed: int) -> Result:
 
 def replay(rp: dict[str, Any]) -> bool:
     d = rp["detail"]
+    if d.get("harness") == "c19-address":
+        res = Result("C19", "model_checking")
+        address_form_runs(res, only=d["key"])
+        print(d["key"], "->", [v.clause for v in res.violations] or "holds")
+        return not res.violations
     if d.get("harness") == "c19-late-session":
         res = Result("C19", "model_checking")
         late_session_runs(res, only=d["key"])
